@@ -19,7 +19,23 @@ def mux_selected(rec, rows):
     return None
 
 
-def check_phase(res, spec, obs, ph, ta=25.0, want=("C01", "C02", "C04"), d=None, law_rt=1e-4):
+def expected_domain(d, rows, name):
+    """Source that actually powers `name` (through the selected mux input); None below a mux with no live input."""
+    n = name
+    while True:
+        rec = d[n]
+        if rec["k"] == "Source":
+            return n
+        if len(rec["parents"]) > 1:
+            s = mux_selected(rec, rows)
+            if s is None:
+                return None
+            n = rec["parents"][s]
+        else:
+            n = rec["parents"][0]
+
+
+def check_phase(res, spec, obs, ph, ta=25.0, want=("C01", "C02", "C04"), d=None, law_rt=1e-4, law_at=5e-8):
     """Evaluate the row oracles for phase ph ('' without phases).  Appends violations to res.
     Returns the per-phase dict name->row, or None when rows are missing."""
     d = d or resolve(spec)
@@ -61,6 +77,25 @@ def check_phase(res, spec, obs, ph, ta=25.0, want=("C01", "C02", "C04"), d=None,
                 exp_vin = g(rows[rec["parents"][0]], "Vout (V)")
             if "C01" in want and vin != exp_vin:
                 res.v(("C01.vin", k), "%s Vin %r but feeder outputs %r" % (name, vin, exp_vin))
+        # ---- reported feeder (C05/C08) and domain (C05/C07) -------------------------------
+        if ("C05" in want or "C07" in want) and k != "Source":
+            live_sel = not (len(rec["parents"]) > 1 and mux_selected(rec, rows) is None)
+            fname = rec["parents"][sel]
+            if "C05" in want and live_sel:
+                if "Parent" in r:
+                    if r["Parent"] != fname:
+                        res.v(("C05.parent", k, "multi-input" if len(rec["parents"]) > 1 else "single"), "%s Parent %r expected %r" % (name, r["Parent"], fname))
+                elif "Rail in" in r:
+                    if r["Rail in"] != d[fname].get("r", ""):
+                        res.v(("C05.rail-in", k, "multi-input" if len(rec["parents"]) > 1 else "single"), "%s Rail in %r expected %r" % (name, r["Rail in"], d[fname].get("r", "")))
+            dom = expected_domain(d, rows, name)
+            rec["_dom"] = dom
+            if "Domain" in r and dom is not None and r["Domain"] != dom:
+                res.v(("C07.domain", k), "%s Domain %r expected %r" % (name, r["Domain"], dom))
+        elif k == "Source":
+            rec["_dom"] = name
+            if ("C05" in want or "C07" in want) and "Domain" in r and r["Domain"] != name:
+                res.v(("C07.domain", k), "%s Domain %r" % (name, r["Domain"]))
         cs = 0.0
         for c in rec["children"]:
             cr = d[c]
@@ -71,14 +106,14 @@ def check_phase(res, spec, obs, ph, ta=25.0, want=("C01", "C02", "C04"), d=None,
             cs += g(rows[c], "Iin (A)")
         # a non-source Iout is computed from the same current vector as the children's Iin (exact);
         # a source reports its own entry of the (previous) iterate: solver tolerance applies
-        if "C01" in want and not (close(iout, cs, law_rt, 5e-8) if k == "Source" else close(iout, cs, 1e-12, 1e-18)):
+        if "C01" in want and not (close(iout, cs, law_rt, law_at) if k == "Source" else close(iout, cs, 1e-12, 1e-18)):
             res.v(("C01.iout", k, *tags), "%s Iout %r but children draw %r" % (name, iout, cs))
         # ---- transfer law ------------------------------------------------------------------
         if "C01" in want:
             ev, ei = law(rec, vin, iout, ph, sel)
-            if not close(vout, ev, law_rt, 5e-8):
+            if not close(vout, ev, law_rt, law_at):
                 res.v(("C01.law-v", k, *tags, *(["inactive"] if not act else [])), "%s Vout %r law %r (Vin %r Iout %r)" % (name, vout, ev, vin, iout))
-            if not close(iin, ei, law_rt, 5e-8):
+            if not close(iin, ei, law_rt, law_at):
                 res.v(("C01.law-i", k, *tags, *(["inactive"] if not act else [])), "%s Iin %r law %r (Vin %r Iout %r)" % (name, iin, ei, vin, iout))
             for t in branch_tags(rec, vin, iout, ph):
                 res.classes.add("%s:%s" % (k, t))
@@ -95,6 +130,8 @@ def check_phase(res, spec, obs, ph, ta=25.0, want=("C01", "C02", "C04"), d=None,
                 if not (iin == iis and vout == 0.0 and close(P, iis * abs(vin), 1e-12, 0) and close(L, iis * abs(vin), 1e-12, 0)):
                     res.v(("C04.sleep", k), "%s inactive: Iin %r (iis %r) Vout %r P %r L %r Vin %r" % (name, iin, iis, vout, P, L, vin))
                 res.stats["sleep_rows"] += 1
+            else:
+                res.stats["live_rows"] += 1
         if "C04" in want and k == "Source" and (not act or rec["a"]["vo"] == 0):
             if any(x != 0.0 for x in (vout, iin, iout, P, L)):
                 res.v(("C04.dead-source", k), "%s: %r" % (name, (vout, iin, iout, P, L)))
